@@ -2,6 +2,7 @@ package route
 
 import (
 	"fmt"
+	"math"
 	"sync"
 	"sync/atomic"
 	"time"
@@ -53,7 +54,7 @@ type CloudWatch struct {
 // NewCloudWatch creates a route that writes metrics to the AWS service CloudWatch
 // We will automatically run the route and the destination
 func NewCloudWatch(key string, matcher matcher.Matcher, awsProfile, awsRegion, awsNamespace string, awsDimensions [][]string, bufSize, flushMaxSize, flushMaxWait int, storageResolution int64, blocking bool) (Route, error) {
-	if bufSize < 0 || flushMaxWait <= 0 {
+	if bufSize < 0 || bufSize > math.MaxInt32 || flushMaxWait <= 0 {
 		return nil, fmt.Errorf("cloudWatch %q: bufSize must be >= 0 and flushMaxWait > 0", key)
 	}
 
